@@ -173,6 +173,26 @@ class Ctx:
 
     uf_rule = None
 
+    def jacobian_at(self, f, values, h=1e-6, name="X"):
+        """d f(X)/dX with ALL entries of X independent, evaluated at X = values (which may be
+        constrained, e.g. symmetric).  sym: fresh variables, DAG derivative, substitution."""
+        values = np.asarray(values)
+        if not self.sym:
+            return self.jacobian(f, values, h=h)
+        self._fresh = getattr(self, "_fresh", 0) + 1
+        X = np.empty(values.shape, dtype=object)
+        for i in np.ndindex(*values.shape):
+            X[i] = var("__%s%d%s" % (name, self._fresh, "".join("_%d" % k for k in i)))
+        y = np.asarray(f(X), dtype=object)
+        D = self.derivative(y, X)
+        mapping = {lift(X[i]): lift(values[i]) for i in np.ndindex(*values.shape)}
+        flat = [lift(v) for v in D.reshape(-1)]
+        sub = S.substitute(flat, mapping)
+        out = np.empty(D.size, dtype=object)
+        for k, n in enumerate(sub):
+            out[k] = Sym(n)
+        return out.reshape(D.shape)
+
     # ---- obligations
     def equal(self, name, impl, oracle, tol=None, box=None, note="", rtol_replay=1e-6):
         impl = np.asarray(impl, dtype=object if self.sym else float)
@@ -455,6 +475,8 @@ class CaseRunner:
             self.inconclusive.append({"obligation": "*", "reason": "no feasible path (vacuous assumptions)"})
             return self.result(t0)
         self.path_ctxs = paths
+        self.path_samples = {}
+        self.validate(norm, paths)
         twin_done = False
         for pi, (pc, trail, ctx) in enumerate(paths):
             if not ctx.obligations:
@@ -474,8 +496,7 @@ class CaseRunner:
             for ob in ctx.obligations:
                 self.decide(norm, ctx, pc, pi, ob)
             if not twin_done and ctx.obligations:
-                twin_done = self.twin(norm, ctx, pc)
-        self.validate(norm, paths)
+                twin_done = self.twin(norm, ctx, pc, pi)
         return self.result(t0)
 
     def _record(self, ob, pi, verdict, method, detail=None, seconds=0.0):
@@ -521,6 +542,7 @@ class CaseRunner:
             else:
                 non_idx.append(k)
         assumptions = list(ob.assumptions) + list(pc)
+        self._dctx = (norm, ctx, ob, pi, nums, dens, assumptions, tiny_idx + non_idx)
         # ---- Q-exact on the unexpanded numerators (solver re-derives the normal form)
         ok = True
         if zero_idx:
@@ -553,37 +575,62 @@ class CaseRunner:
                 )
 
     def q_exact(self, norm, ob, pi, nums, assumptions, chunk=None):
-        """one query: assumptions /\\ (\\/ num_i != 0)  expected unsat"""
+        """assumptions /\\ (\\/ num_i != 0) expected unsat.  Entries whose exact expansion needed
+        atom relations (root^q = base, sin^2+cos^2 = 1) are discharged through a certificate:
+        the solver proves the pure identity num == sum_g Q_g (g^q - base_g) and then
+        (g^q = base_g for all g) /\\ num != 0 unsat."""
         nums = [n for n in nums if n is not ZERO]
         if not nums:
-            # residuals folded to the constant 0 during tracing: still ask the solver a ground query
             em = Emitter(norm)
-            text = em.script(["(distinct 0.0 0.0)"])
-            r = self.solve(text, "z3", 10)
+            r = self.solve(em.script(["(distinct 0.0 0.0)"]), "z3", 10)
             return r.status == "unsat"
         uniq = list({n.id: n for n in nums}.values())
-        queue = [uniq]
+        plain, cert = [], []
+        if norm.reductions:
+            for n in uniq:
+                try:
+                    pu = norm.poly_unreduced(n)
+                except MemoryError:
+                    plain.append(n)
+                    continue
+                if pu.is_zero():
+                    plain.append(n)
+                else:
+                    cert.append((n, pu))
+        else:
+            plain = uniq
+        if plain and not self._q_exact_plain(norm, ob, pi, plain, assumptions):
+            return False
+        if cert and not self._q_exact_cert(norm, ob, pi, cert, assumptions):
+            return False
+        return True
+
+    def _q_exact_plain(self, norm, ob, pi, uniq, assumptions):
+        T = self.budget.exact_timeout
+        stages = [[uniq]]
+        # stage 2: chunks of 8; stage 3: single entries (stop at the first undecided one)
+        level = 0
+        queue = [(uniq, 0)]
         while queue:
-            part = queue.pop()
+            part, level = queue.pop()
             em = Emitter(norm)
             em.add(part)
             asserts = self._domain_asserts(em, assumptions)
             asserts.append("(or %s)" % " ".join("(distinct %s 0.0)" % em.ref(n) for n in part) if len(part) > 1 else "(distinct %s 0.0)" % em.ref(part[0]))
             text = em.script(asserts)
             self.smt_sizes.append(len(text))
-            r = self.solve(text, "z3", self.budget.exact_timeout)
+            r = self.solve(text, "z3", T if level == 0 else max(10, T // 3))
             if r.status == "unsat":
                 self._cross(text, "unsat")
                 continue
             if r.status in ("timeout", "unknown") and len(part) > 1:
-                h = len(part) // 2
-                queue.append(part[:h])
-                queue.append(part[h:])
+                size = 8 if (level == 0 and len(part) > 8) else 1
+                for k in range(0, len(part), size):
+                    queue.append((part[k : k + size], level + 1))
                 continue
             if r.status in ("timeout", "unknown"):
-                # second opinion from the other back ends before giving up
-                for s in ("z3-new", "cvc5"):
-                    r2 = self.solve(text, s, self.budget.exact_timeout)
+                for s2 in ("z3-new", "cvc5"):
+                    r2 = self.solve(text, s2, max(10, T // 3))
                     if r2.status == "unsat":
                         break
                 else:
@@ -594,6 +641,64 @@ class CaseRunner:
             self._record(ob, pi, "inconclusive", "Q-exact", "solver says %s but exact expansion is 0: %s" % (r.status, r.raw[:200]))
             self.inconclusive.append({"obligation": ob.name, "reason": "normaliser/solver disagreement (%s)" % r.status})
             return False
+        return True
+
+    def _q_exact_cert(self, norm, ob, pi, cert, assumptions):
+        from .smt import poly_to_smt
+
+        T = self.budget.exact_timeout
+        for n, pu in cert:
+            rem, Q = norm.reduce_with_certificate(pu)
+            if not rem.is_zero():
+                self._record(ob, pi, "inconclusive", "Q-exact-cert", "certificate remainder not zero")
+                self.inconclusive.append({"obligation": ob.name, "reason": "certificate construction failed"})
+                return False
+            em = Emitter(norm)
+            nref = em.ref(n)
+            names = {}
+            gens = set()
+            for g, qg in Q.items():
+                gens |= qg.gens()
+                gens.add(g)
+                gens |= norm.reductions[g][1].gens()
+            for g in gens:
+                info = norm.gen_info[g]
+                if info["kind"] == "var":
+                    names[g] = em.ref(S.Node("v", (info["name"],)))
+                else:
+                    names[g] = em.ref(info["node"])
+            # (a) pure identity: num == sum_g Q_g * (g^q - base_g)   (atoms free)
+            terms = []
+            rels = []
+            for g, qg in Q.items():
+                qq, base = norm.reductions[g]
+                rel = "(- (* %s) %s)" % (" ".join([names[g]] * qq), poly_to_smt(base, names))
+                rels.append(rel)
+                terms.append("(* %s %s)" % (poly_to_smt(qg, names), rel))
+            rhs = terms[0] if len(terms) == 1 else "(+ %s)" % " ".join(terms)
+            saved_ax = em.axioms
+            em.axioms = []  # the identity must hold with the atoms as free reals
+            text_a = em.script(["(distinct %s %s)" % (nref, rhs)])
+            em.axioms = saved_ax
+            self.smt_sizes.append(len(text_a))
+            ra = self.solve(text_a, "z3", T)
+            if ra.status != "unsat":
+                self._record(ob, pi, "inconclusive", "Q-exact-cert", "certificate identity %s" % ra.status)
+                self.inconclusive.append({"obligation": ob.name, "reason": "certificate identity %s" % ra.status})
+                return False
+            self._cross(text_a, "unsat")
+            # (b) with the atom relations the right-hand side vanishes
+            lines = ["(set-logic QF_NRA)"]
+            for k in range(len(rels)):
+                lines.append("(declare-fun q%d () Real)" % k)
+                lines.append("(declare-fun r%d () Real)" % k)
+                lines.append("(assert (= r%d 0.0))" % k)
+            lines.append("(assert (distinct (+ 0.0 %s) 0.0))" % " ".join("(* q%d r%d)" % (k, k) for k in range(len(rels))))
+            lines.append("(check-sat)")
+            rb = self.solve("\n".join(lines) + "\n", "z3", 10)
+            if rb.status != "unsat":
+                self.inconclusive.append({"obligation": ob.name, "reason": "certificate closing step %s" % rb.status})
+                return False
         return True
 
     def _cross(self, text, expected):
@@ -646,13 +751,7 @@ class CaseRunner:
                 return False, None
             den_lo = Fraction(1)
             if denP is not None:
-                lo, hi = poly_interval(denP, boxes)
-                if lo > 0:
-                    den_lo = lo
-                elif hi < 0:
-                    den_lo = -hi
-                else:
-                    den_lo = None
+                den_lo = self._den_lower_bound(norm, dens[k], boxes, assumptions)
             proved = False
             if den_lo is not None:
                 # LRA relaxation: one bounded variable per monomial
@@ -683,10 +782,52 @@ class CaseRunner:
                 elif isinstance(v, dict):
                     return False, {"entry": k, "model": v, "kind": "tol"}
                 else:
+                    sv = self.sampled_violation()
+                    if sv is not None:
+                        return False, sv
                     self._record(ob, pi, "inconclusive", "Q-tol", "entry %s: relaxation not tight and NRA %s" % (ob.labels[k], v))
                     self.inconclusive.append({"obligation": ob.name, "reason": "Q-tol undecided"})
                     return False, None
         return True, None
+
+    def _den_lower_bound(self, norm, den, boxes, assumptions):
+        """lower bound of |prod f^e| on the box: per factor, from an assumption 'f >= c > 0' (matched by
+        canonical polynomial) or from interval arithmetic"""
+        known = {}
+        for a in assumptions:
+            if a.op in ("gt", "ge") and a.args[1].op == "c" and a.args[1].args[0] > 0:
+                e, c = a.args[0], a.args[1].args[0]
+            elif a.op in ("lt", "le") and a.args[0].op == "c" and a.args[0].args[0] > 0:
+                e, c = a.args[1], a.args[0].args[0]
+            else:
+                continue
+            try:
+                n_, d_ = norm.ratnorm(e)
+                if d_:
+                    continue
+                known[norm.poly(n_).key()] = max(c, known.get(norm.poly(n_).key(), 0))
+            except (MemoryError, ValueError):
+                continue
+        total = Fraction(1)
+        for f, e in den:
+            P = norm.poly(f)
+            b = known.get(P.key())
+            if b is None:
+                mk_ = (-P).key()
+                b = None
+            if b is None:
+                missing = [g for g in P.gens() if g not in boxes]
+                if missing:
+                    return None
+                lo, hi = poly_interval(P, boxes)
+                if lo > 0:
+                    b = lo
+                elif hi < 0:
+                    b = -hi
+                else:
+                    return None
+            total *= b**e
+        return total
 
     def _nra_tol_query(self, norm, ctx, ob, k, nums, dens, boxes, assumptions, tol):
         em = Emitter(norm)
@@ -738,6 +879,9 @@ class CaseRunner:
             if r.status == "unsat":
                 # non-zero polynomial but no visible violation in the box: only below resolution
                 last = "unsat-above-1e-6"
+        sv = self.sampled_violation()
+        if sv is not None:
+            return sv
         P = polys[idx[0]]
         self._record(
             ob,
@@ -806,6 +950,10 @@ class CaseRunner:
                 rep = (fctx, rec)
                 break
             err = "witness does not reproduce (err %.3g, scale %.3g)" % (rec["err"], rec["scale"])
+        if rep is None and viol.get("kind") != "hinted":
+            sv = self.sampled_violation()
+            if sv is not None:
+                return self.report_violation(ctx, ob, pi, sv, seconds)
         if rep is None:
             self._record(ob, pi, "inconclusive", "replay", err, seconds)
             self.inconclusive.append({"obligation": ob.name, "reason": "solver witness did not replay: %s" % err})
@@ -834,6 +982,43 @@ class CaseRunner:
         self._record(ob, pi, "violated", "replay", replay["observed"], seconds)
         self.violations.append({"obligation": ob.name, "replay": path, "observed": replay["observed"]})
 
+    def sampled_violation(self, tries=6):
+        """fallback when the solver's own witness is missing or does not replay (abstract atoms,
+        NRA timeout): look for a violating float sample of the real code, then let the solver
+        confirm the violation with the variables pinned to that sample."""
+        norm, ctx, ob, pi, nums, dens, assumptions, idx = self._dctx
+        if not idx:
+            idx = list(range(len(nums)))
+        tol = _frac(ob.tol) if ob.tol else Fraction(1, 10**6)
+        for attempt in range(tries):
+            try:
+                fctx = self.float_run({}, seed=self.seed * 7919 + 101 + attempt)
+            except Reject:
+                continue
+            except Exception:  # noqa: BLE001
+                continue
+            rec = fctx.float_records.get(ob.name)
+            if not rec or not rec.get("violated"):
+                continue
+            env = dict(fctx.used_values)
+            em = Emitter(norm)
+            asserts = self._domain_asserts(em, assumptions)
+            disj = []
+            for k in idx[:12]:
+                n = em.ref(nums[k])
+                d = em.ref(norm.den_node(dens[k])) if dens[k] else "1.0"
+                disj.append("(> (* %s %s) (* %s %s %s %s))" % (n, n, smtq(tol), smtq(tol), d, d))
+            asserts.append("(or %s)" % " ".join(disj) if len(disj) > 1 else disj[0])
+            pins = []
+            for name in list(em.decls):
+                nm = name.strip("|")
+                if nm in env and nm not in S.SPECIAL_CONSTANTS:
+                    pins.append("(= %s %s)" % (name, smtq(Fraction(float(env[nm])))))
+            r = self.solve(em.script(asserts + pins), "z3", self.budget.cex_timeout)
+            if r.status == "sat":
+                return {"entry": idx[0], "model": env, "kind": "hinted"}
+        return None
+
     def match_known(self, obname):
         for k in self.known:
             if k.get("status", "known") != "known":
@@ -848,7 +1033,20 @@ class CaseRunner:
         return None
 
     # ------------------------------------------------------------- twin
-    def twin(self, norm, ctx, pc):
+    def _pin_sample(self, em, pi):
+        """pin the variables to a float-mode sample of this path (exact rational values): the
+        solver then evaluates the twin at a concrete reachable point"""
+        env = self.path_samples.get(pi)
+        if not env:
+            return []
+        out = []
+        for name in list(em.decls):
+            nm = name.strip("|")
+            if nm in env and nm not in S.SPECIAL_CONSTANTS:
+                out.append("(= %s %s)" % (name, smtq(Fraction(float(env[nm])))))
+        return out
+
+    def twin(self, norm, ctx, pc, pi=0):
         """reachability twin: first non-ground obligation with its first residual shifted by 1 must be sat"""
         for ob in ctx.obligations:
             if ob.kind != "zero":
@@ -861,7 +1059,9 @@ class CaseRunner:
             asserts.append("(distinct %s 0.0)" % em.ref(num))
             for dn, _e in den:
                 asserts.append("(distinct %s 0.0)" % em.ref(dn))
-            r = self.solve(em.script(asserts), "z3", self.budget.cex_timeout)
+            r = self.solve(em.script(asserts + self._pin_sample(em, pi)), "z3", self.budget.cex_timeout)
+            if r.status != "sat":
+                r = self.solve(em.script(asserts), "z3", self.budget.cex_timeout)
             if r.status == "sat":
                 self.stats["twins_violated"] += 1
             else:
@@ -899,10 +1099,11 @@ class CaseRunner:
             env.update(S.SPECIAL_CONSTANTS)
             # select the symbolic path taken by this sample
             chosen = None
-            for pc, trail, ctx in paths:
+            for pidx, (pc, trail, ctx) in enumerate(paths):
                 try:
                     if all(evalf(c, env, uf_eval=getattr(fctx, "uf_eval", None)) for c in pc):
                         chosen = ctx
+                        self.path_samples.setdefault(pidx, env)
                         break
                 except (KeyError, ValueError, ZeroDivisionError, OverflowError):
                     continue
